@@ -3,8 +3,8 @@ compositions of the operations the exhaustive tables of f4 cover one at a time: 
 random splits, swizzle reads on variables / rows / array elements, component-wise operators,
 scaling, matrix product, element / row / swizzle writes (also compound), copies, all inside
 straight-line code with an occasional branch or bounded loop.  Only value-preserving
-conversions occur (int -> float); `%`, `&&`, `||` on vectors and scalar * matrix / matrix *
-vector are not generated (known findings).  Deterministic in (seed, index)."""
+conversions occur (int -> float); `%`, `&&`, `||` on vectors are not generated (known finding
+of C09).  Deterministic in (seed, index)."""
 import random
 from . import Item
 from ..nslref import ast as A
@@ -101,6 +101,8 @@ class G:
         if A.is_vec(t):
             c, n = A.comp_of(t), A.vec_n(t)
             k = r.random()
+            if c == "float" and n in (3, 4) and k < 0.1:
+                return A.Bin("*", self.expr(env, f"float{n}x{n}", d - 1), self.expr(env, t, d - 1))        # matrix * vector
             if k < 0.25:
                 return self.construct(env, t, d - 1)
             if k < 0.45:
@@ -130,7 +132,10 @@ class G:
                 return A.Bin(r.choice(["+", "-"]), self.expr(env, t, d - 1), self.expr(env, t, d - 1))
             if k < 0.65:
                 sc = self.lit("float") if r.random() < 0.6 else self.expr(env, "float", 0)
-                return A.Bin(r.choice(["*", "/"]), self.expr(env, t, d - 1), sc)
+                op = r.choice(["*", "/"])
+                if op == "*" and r.random() < 0.4:
+                    return A.Bin("*", sc, self.expr(env, t, d - 1))                                          # scalar * matrix
+                return A.Bin(op, self.expr(env, t, d - 1), sc)
             if k < 0.8:
                 return A.Bin("*", self.expr(env, t, d - 1), self.expr(env, t, d - 1))
             a = self.access(env, t)
